@@ -117,7 +117,8 @@ def run_journaled(sink, modname, shard, env=None, per_worker_timeout=900, max_re
             if restarts > max_restarts:
                 sink.notes.append(f'journaled runner gave up after {restarts} worker deaths')
                 break
-            if last_sub is None:
+            if last_sub is None or (open_case, last_sub) <= (start_case, start_sub - 1):
+                # no sub-step progress since the last restart: this case cannot be resumed, skip it
                 start_case, start_sub = open_case + 1, 0
             else:
                 start_case, start_sub = open_case, last_sub + 1
@@ -131,4 +132,24 @@ def run_journaled(sink, modname, shard, env=None, per_worker_timeout=900, max_re
 
 
 if __name__ == '__main__':
-    _worker(sys.argv[1:])
+    if os.environ.get('VERIF_VARIANT') in ('asan', 'tsan'):
+        # sanitizer-instrumented frames are several times larger than production frames: give the
+        # worker a stack that keeps the *engine's own* depth limit the deciding factor.
+        import threading
+
+        threading.stack_size(1 << 30)
+        box = []
+
+        def _main():
+            try:
+                _worker(sys.argv[1:])
+            except BaseException as e:  # noqa: BLE001
+                box.append(e)
+
+        t = threading.Thread(target=_main)
+        t.start()
+        t.join()
+        if box:
+            raise box[0]
+    else:
+        _worker(sys.argv[1:])
